@@ -305,6 +305,21 @@ Definition parse_literal (s : str) : outcome literal :=
            end
   end.
 
+(* literal.NewBoundedBuilder(max).Parse: the default parser, then a size check of text and blob values
+   (the Go code dereferences the literal: a nil literal with a nil error would panic) *)
+Definition parse_literal_bounded (max : nat) (s : str) : outcome literal :=
+  match parse_literal s with
+  | Ok l =>
+      match l with
+      | LText t => if Nat.ltb max (List.length t) then Err else Ok l
+      | LBlob b => if Nat.ltb max (List.length b) then Err else Ok l
+      | _ => Ok l
+      end
+  | Err => Err
+  | Panic p => Panic p
+  | NilNil => Panic S_lit_t
+  end.
+
 (* triple.ParseObject: node, then literal, then predicate; a nil error is taken as success *)
 Definition parse_object (s : str) : outcome object :=
   match parse_node s with
